@@ -514,13 +514,26 @@ def oracle_history(h, obs=None, obs_fresh=None):
                     inspan = False
                     break
                 P = np.stack(prev, axis=1)
-                c = np.linalg.lstsq(P, b, rcond=None)[0]
+                c = np.linalg.lstsq(P, b, rcond=1e-9)[0]
                 if np.linalg.norm(P @ c - b) > 1e-10 * nb:
                     inspan = False
                     break
             if inspan and o["calls"] > 0:
                 return f"op {i}: right-hand side lies in the span of those already solved for this matrix, but the inner solver was called"
-        solved.setdefault(store, []).extend(Beff[:, j] for j in range(B.shape[1]))
+        # the span "already solved" grows only by vectors that are independent of it well above the wrapper tolerance: a
+        # copy perturbed by 1e-12 is answered from the database (within tolerance) and does NOT add a direction
+        for j in range(B.shape[1]):
+            b = Beff[:, j]
+            nb = np.linalg.norm(b)
+            if nb == 0:
+                continue
+            cur = solved.setdefault(store, [])
+            if cur:
+                P = np.stack(cur, axis=1)
+                c = np.linalg.lstsq(P, b, rcond=1e-9)[0]
+                if np.linalg.norm(P @ c - b) <= 1e-5 * nb:
+                    continue
+            cur.append(b)
         if op["cplx"]:
             real_only = False
     return None
